@@ -1,3 +1,4 @@
 //! Shared reference models / validators.
 pub mod lockdep;
 pub mod utf16;
+pub mod luavm;
